@@ -13,7 +13,7 @@ time_t __wrap_time (time_t *t) { if (t) *t = fake_now ; return fake_now ; }
 int __wrap_gettimeofday (struct timeval *tv, void *tz) { (void) tz ; if (tv) { tv->tv_sec = fake_now ; tv->tv_usec = 4242 ; } return 0 ; }
 
 typedef struct { int expect ; uint64_t res ; char why [160] ; } REC ;
-typedef struct { int format, ch, mode ; MEMF m ; SNDFILE *s ; long frames0 ; const char *fn ; char hist [200] ; REC rec [4] ; int nrec, quiet ; } H ;
+typedef struct { int format, ch, mode ; MEMF m ; SNDFILE *s ; long frames0 ; const char *fn ; char hist [260] ; REC rec [4] ; int nrec, quiet ; } H ;
 static uint64_t g_data ;	/* digest of the data a read call delivered */
 
 static uint64_t state_digest (H *h)
@@ -157,8 +157,8 @@ static void do_call (H *h, int ci)
 
 /* Twin oracle: "an invalid call has no effect" is decided behaviourally.  The same history WITHOUT its failed calls is run on a second,
 ** fresh handle; every remaining call must return the same value and data, and after sf_close both backing stores must hold the same bytes. */
-static void twin_check (H *h, int format, int ch, int mode, const MEMF *base, int a, int b, int c)
-{	H t ; int seq [3] = { a, b, c }, i, nfail = 0, firstfail = -1, j = 0 ; const char *ms = mode == SFM_READ ? "r" : mode == SFM_WRITE ? "w" : "rw" ;
+static void twin_check (H *h, int format, int ch, int mode, const MEMF *base, int a, int b, int c, int d)
+{	H t ; int seq [4] = { a, b, c, d }, i, nfail = 0, firstfail = -1, j = 0 ; const char *ms = mode == SFM_READ ? "r" : mode == SFM_WRITE ? "w" : "rw" ;
 	for (i = 0 ; i < h->nrec ; i++) if (h->rec [i].expect == EXP_FAIL || h->rec [i].expect == EXP_FAIL_Q) { nfail++ ; if (firstfail < 0) firstfail = i ; }
 	if (!nfail) return ;
 	if (h_open (&t, format, ch, mode, base) != 0) return ;
@@ -240,16 +240,16 @@ int main (int argc, char **argv)
 	vh_init (argc, argv, "c09_invalid_calls", "C09") ;
 	if (vh_case ("open failures, NULL handle, error-number table")) { vh_distinct (1) ; vh_distinct (2) ; open_failures () ; }
 	for (f = 0 ; f < 12 ; f++) for (mi = 0 ; mi < 3 ; mi++) for (a = 0 ; a < NCALLS ; a++)
-	{	MEMF base ; int format = fmts [f][0], ch = fmts [f][1], depth = 3 ;
+	{	MEMF base ; int format = fmts [f][0], ch = fmts [f][1], depth = (vh_thorough && (f == 0 || f == 2 || f == 4 || f == 7)) ? 4 : 3, d ;
 		if (!vh_case ("%s ch=%d mode=%s first=%s depth=%d", vh_fname (format), ch, mi == 0 ? "read" : mi == 1 ? "write" : "rdwr", calls [a].name, depth)) continue ;
 		if (vh_make_file (&base, format, ch, 8000, 700, 1) != 0) { mv_free (&base) ; continue ; }
-		vh_sample ("%s ch=%d mode=%s: every sequence of %d calls from the %d-call alphabet starting with %s", vh_fname (format), ch, mi == 0 ? "read" : mi == 1 ? "write" : "rdwr", depth, NCALLS, calls [a].name) ;
-		for (b = 0 ; b < NCALLS ; b++) for (c = 0 ; c < (depth == 3 ? NCALLS : 1) ; c++)
+		vh_sample ("%s ch=%d mode=%s: every sequence of %d calls from the %d-call alphabet starting with %s; each history with a failed call is re-run without its failed calls on a twin handle", vh_fname (format), ch, mi == 0 ? "read" : mi == 1 ? "write" : "rdwr", depth, NCALLS, calls [a].name) ;
+		for (b = 0 ; b < NCALLS ; b++) for (c = 0 ; c < NCALLS ; c++) for (d = 0 ; d < (depth == 4 ? NCALLS : 1) ; d++)
 		{	H h ;
-			if (h_open (&h, format, ch, modes [mi], &base) != 0) { if (b == 0 && c == 0) vh_statf (1, "cannot_open:%s:%d", vh_fname (format), mi) ; goto next ; }
-			do_call (&h, a) ; do_call (&h, b) ; if (depth == 3) do_call (&h, c) ;
-			twin_check (&h, format, ch, modes [mi], &base, a, b, c) ;
-			vh_distinct (vh_fnv (0, &format, 4) ^ ((uint64_t) mi << 40) ^ ((uint64_t) a << 20) ^ ((uint64_t) b << 10) ^ (uint64_t) c ^ ((uint64_t) depth << 50)) ;
+			if (h_open (&h, format, ch, modes [mi], &base) != 0) { if (b == 0 && c == 0 && d == 0) vh_statf (1, "cannot_open:%s:%d", vh_fname (format), mi) ; goto next ; }
+			do_call (&h, a) ; do_call (&h, b) ; do_call (&h, c) ; if (depth == 4) do_call (&h, d) ;
+			twin_check (&h, format, ch, modes [mi], &base, a, b, c, d) ;
+			vh_distinct (vh_fnv (0, &format, 4) ^ ((uint64_t) mi << 40) ^ ((uint64_t) a << 20) ^ ((uint64_t) b << 10) ^ (uint64_t) c ^ ((uint64_t) depth << 50) ^ ((uint64_t) (depth == 4 ? d + 1 : 0) << 54)) ;
 			vh_stat ("histories", 1) ;
 			if (h.s) sf_close (h.s) ; mv_free (&h.m) ;
 			}
